@@ -345,7 +345,16 @@ def random_cfg(rng: random.Random, profile: str) -> dict:
             cfg["impactPct"] = rng.choice([10, 50, 100])
             cfg["vlN"], cfg["vlD"], cfg["vs"] = rng.choice([(1, 2), (1, 1), (1, 4)]) + (1,)
         cfg["impact"] = cfg["impactPct"] > 0
-    if lend == "margin" and rng.random() < 0.2 and "EUR" not in syms:
+    if lend == "margin" and rng.random() < 0.12:
+        # a symbol that is only priced through an inverse pair (USD/ARS): margin values go through 1 / price
+        syms.append("ARS")
+        cfg["scale"]["ARS"] = 1
+        cfg["init"]["ARS"] = rng.choice([0, 0, 500])
+        cfg["pairs"].append({"b": "USD", "q": "ARS"})
+        cfg["cond"]["ARS"] = no_cond()
+        cfg["borrowOnly"] = len(cfg["pairs"])
+        cfg["inverse"] = True
+    elif lend == "margin" and rng.random() < 0.2 and "EUR" not in syms:
         # a symbol that is only borrowed, with loan amounts finer than its configured precision (1 decimal, units of 0.001)
         syms.append("EUR")
         cfg["scale"]["EUR"] = 1000
@@ -374,6 +383,10 @@ def random_cfg(rng: random.Random, profile: str) -> dict:
         for s in syms:
             if s == "EUR" and cfg.get("borrowOnly"):
                 cfg["cond"][s] = margin_cond("EUR", 0, 1, 1, 0, rng.choice([1, 2, 4]))      # no interest: nothing is truncated
+                continue
+            if s == "ARS" and cfg.get("inverse"):
+                cfg["cond"][s] = margin_cond("ARS", *rng.choice([(0, 1), (1, 10)]), period=rng.choice([1, 2]), minInt=rng.choice([0, 3]),
+                                             reqN=rng.choice([1, 2, 4]))
                 continue
             if rng.random() < 0.85:
                 cfg["cond"][s] = margin_cond(rng.choice([s, "USD"]), *rng.choice([(0, 1), (1, 100), (1, 10), (7, 100)]),
@@ -445,6 +458,8 @@ class Driver:
         if kind == "create_loan":
             s = rng.choice(cfg["syms"])
             if cfg.get("borrowOnly") and rng.random() < 0.6:
+                if cfg.get("inverse"):
+                    return [{"kind": kind, "arg": {"sym": "ARS", "amount": rng.choice([rng.randint(1, 99), rng.randint(100, 5000)])}}]
                 return [{"kind": kind, "arg": {"sym": "EUR", "amount": rng.choice([rng.randint(1, 999), rng.randint(1000, 50000)])}}]
             if cfg.get("dust"):
                 return [{"kind": kind, "arg": {"sym": s, "amount": rng.choice([1, rng.randint(2, 9), rng.randint(10**3, 10**4), rng.randint(10**4, 2 * 10**4)])}}]
